@@ -356,6 +356,9 @@ pub fn check_def() -> PropertyCheck {
 struct FeedbackProbe {
   log: std::sync::Arc<ProbeLog>,
   limit: i64,
+  /// what the subscriber does to the source on receiving the last item, from
+  /// inside that delivery: 0 nothing, 1 complete, 2 error
+  end: u8,
   local: Option<crate::props::c06::AssertSend<Subject<'static, Val, E>>>,
   shared: Option<SubjectThreads<Val, E>>,
 }
@@ -370,6 +373,21 @@ impl Observer<Val, E> for FeedbackProbe {
         }
         if let Some(s) = &mut self.shared {
           s.next(Val::I(k + 1));
+        }
+      } else if k == self.limit && self.end != 0 {
+        if let Some(s) = &self.local {
+          if self.end == 1 {
+            s.0.clone().complete()
+          } else {
+            s.0.clone().error(4)
+          }
+        }
+        if let Some(s) = &self.shared {
+          if self.end == 1 {
+            s.clone().complete()
+          } else {
+            s.clone().error(4)
+          }
         }
       }
     }
@@ -393,6 +411,10 @@ pub struct FCase {
   limit: u8,
   any_ready: bool,
   choices: Vec<u8>,
+  /// on receiving the last item the subscriber terminates the source from
+  /// inside that delivery: 0 no, 1 complete, 2 error
+  #[serde(default)]
+  end: u8,
 }
 
 pub struct C07Feedback;
@@ -413,12 +435,13 @@ impl Scenario for C07Feedback {
       limit: rng.range(2, 6) as u8,
       any_ready: rng.chance(1, 2),
       choices: (0..rng.below(6)).map(|_| rng.below(4) as u8).collect(),
+      end: rng.below(3) as u8,
     })
     .unwrap()
   }
   fn run(&self, case: &Value) -> Result<Outcome, String> {
     let case: FCase = serde_json::from_value(case.clone()).map_err(|e| e.to_string())?;
-    if case.limit < 1 || case.limit > 20 || case.delay > 1000 {
+    if case.limit < 1 || case.limit > 20 || case.delay > 1000 || case.end > 2 {
       return Err("bad shape".into());
     }
     let w = World::new();
@@ -427,14 +450,14 @@ impl Scenario for C07Feedback {
     let mut hot_s = SubjectThreads::<Val, E>::default();
     let d = Duration::from_micros(case.delay as u64 * 100);
     let _sub: Box<dyn std::any::Any> = if !case.threads_flavour {
-      let p = FeedbackProbe { log: log.clone(), limit: case.limit as i64, local: Some(crate::props::c06::AssertSend(hot_l.clone())), shared: None };
+      let p = FeedbackProbe { log: log.clone(), limit: case.limit as i64, end: case.end, local: Some(crate::props::c06::AssertSend(hot_l.clone())), shared: None };
       if case.delay == 0 {
         Box::new(hot_l.clone().observe_on(local_sched()).actual_subscribe(p))
       } else {
         Box::new(hot_l.clone().delay(d, local_sched()).actual_subscribe(p))
       }
     } else {
-      let p = FeedbackProbe { log: log.clone(), limit: case.limit as i64, local: None, shared: Some(hot_s.clone()) };
+      let p = FeedbackProbe { log: log.clone(), limit: case.limit as i64, end: case.end, local: None, shared: Some(hot_s.clone()) };
       if case.delay == 0 {
         Box::new(hot_s.clone().observe_on_threads(shared_sched()).actual_subscribe(p))
       } else {
@@ -464,11 +487,22 @@ impl Scenario for C07Feedback {
       }
     }));
     let evs = log.events();
-    let want: Vec<Ev> = (1..=case.limit as i64).map(|k| Ev::Next(Val::I(k))).collect();
-    let site = format!("{}{} feedback", if case.delay == 0 { "ObserveOn" } else { "Delay" }, if case.threads_flavour { "_threads" } else { "" });
+    let mut want: Vec<Ev> = (1..=case.limit as i64).map(|k| Ev::Next(Val::I(k))).collect();
+    match case.end {
+      1 => want.push(Ev::Complete),
+      2 => want.push(Ev::Err(4)),
+      _ => {}
+    }
+    let site = format!("{}{} feedback{}", if case.delay == 0 { "ObserveOn" } else { "Delay" }, if case.threads_flavour { "_threads" } else { "" }, ["", " then complete", " then error"][case.end as usize]);
     let mut violation = None;
     if let Err(p) = r {
       violation = Some(Violation { rule: "c07.panic".into(), site: site.clone(), detail: format!("panic while the subscriber fed the next item into its own source: {}", panic_message(&*p)) });
+    } else if case.end != 0 && evs.len() + 1 == want.len() && evs[..] == want[..evs.len()] {
+      violation = Some(Violation {
+        rule: "c07.terminal-missing".into(),
+        site: site.clone(),
+        detail: format!("the subscriber re-feeds k+1 on receiving k and, on receiving {}, {} the source from inside that delivery; executor idle, delivered [{}]", case.limit, if case.end == 1 { "completes" } else { "fails" }, fmt_trace(&evs)),
+      });
     } else if evs != want {
       violation = Some(Violation {
         rule: "c07.items-lost".into(),
